@@ -73,3 +73,106 @@ Example normalise_idempotent_refuted :
 Proof.
   exists [mk KItem [97%N]; mk KWs [32%N]; mk KWs [32%N]; CR]. vm_compute. discriminate.
 Qed.
+
+(* ---- the reader shape gives the adjacency hypotheses ---- *)
+Definition cur_ok (cur : list tok) (l : list tok) : Prop :=
+  match cur with
+  | [] => alone_from true l = true
+  | [b] => if is_blank b
+           then match l with [] => True | n :: r => is_cr n = true /\ alone_from true r = true end
+           else alone_from false l = true
+  | _ => existsb is_blank cur = false -> alone_from false l = true
+  end.
+
+Lemma line_ok_rev_two a b cur : line_ok (rev (a :: b :: cur)) = true -> existsb is_blank (a :: b :: cur) = false.
+Proof.
+  intros H. remember (rev (a :: b :: cur)) as x eqn:E.
+  assert (L : length x = S (S (length cur))) by (subst x; rewrite rev_length; reflexivity).
+  destruct x as [|x1 [|x2 xs]]; [discriminate L|discriminate L|].
+  unfold line_ok in H. apply negb_true_iff in H.
+  destruct (existsb is_blank (a :: b :: cur)) eqn:Ex; [|reflexivity].
+  apply existsb_exists in Ex. destruct Ex as [t [Hin Ht]].
+  assert (Hin' : In t (x1 :: x2 :: xs)) by (rewrite E; apply -> in_rev; exact Hin).
+  assert (existsb is_blank (x1 :: x2 :: xs) = true) by (apply existsb_exists; exists t; auto).
+  congruence.
+Qed.
+
+(* a line that already holds two objects holds no blank_line object *)
+Lemma long_line_no_blank r : forall cur, forallb line_ok (split_cr r cur) = true -> 2 <= length cur -> existsb is_blank cur = false.
+Proof.
+  induction r as [|x r IH]; intros cur H L.
+  - destruct cur as [|p [|q c]]; cbn in L; try lia. cbn [split_cr forallb] in H. rewrite andb_true_r in H.
+    apply line_ok_rev_two. exact H.
+  - cbn [split_cr] in H. destruct (is_cr x).
+    + cbn [forallb] in H. apply andb_prop in H. destruct H as [H _].
+      destruct cur as [|p [|q c]]; cbn in L; try lia. apply line_ok_rev_two. exact H.
+    + assert (E := IH (x :: cur) H). cbn [length] in E. specialize (E ltac:(lia)).
+      cbn [existsb] in E. apply orb_false_elim in E. apply E.
+Qed.
+
+Lemma shape_lines_alone l : forall cur,
+  forallb line_ok (split_cr l cur) = true ->
+  (match cur with _ :: _ :: _ => existsb is_blank cur = false | _ => True end) ->
+  cur_ok cur l.
+Proof.
+  induction l as [|t r IH]; intros cur H Hc.
+  - destruct cur as [|a [|b c]]; cbn; auto. destruct (is_blank a); auto.
+  - cbn [split_cr] in H. destruct (is_cr t) eqn:Et.
+    + cbn [forallb] in H. apply andb_prop in H. destruct H as [Hl Hr].
+      specialize (IH [] Hr I). cbn in IH.
+      assert (Nb : is_blank t = false) by (unfold is_blank; apply cr_not_blank; exact Et).
+      destruct cur as [|a [|b c]].
+      * cbn in Hl. discriminate.
+      * cbn. destruct (is_blank a) eqn:Ba.
+        -- split; assumption.
+        -- cbn [alone_from]. rewrite Nb, Et. exact IH.
+      * cbn. intros _. cbn [alone_from]. rewrite Nb, Et. exact IH.
+    + assert (IH' := IH (t :: cur) H).
+      destruct cur as [|a [|b c]].
+      * specialize (IH' I). cbn in IH'. cbn. cbn [alone_from]. rewrite Et.
+        destruct (is_blank t) eqn:Bt.
+        -- destruct r as [|n r']; [reflexivity|]. destruct IH' as [Hn Hr']. rewrite Hn. cbn [andb].
+           cbn [alone_from]. unfold is_blank at 1. rewrite (cr_not_blank _ Hn), Hn. exact Hr'.
+        -- exact IH'.
+      * (* cur = [a]; the line now holds two objects: neither may be a blank_line *)
+        assert (Two : existsb is_blank [t; a] = false).
+        { apply (long_line_no_blank r [t; a] H). cbn. lia. }
+        specialize (IH' Two). cbn in IH'. specialize (IH' Two).
+        cbn [existsb] in Two. apply orb_false_elim in Two. destruct Two as [Bt Ba0].
+        apply orb_false_elim in Ba0. destruct Ba0 as [Ba _].
+        cbn. rewrite Ba. cbn [alone_from]. rewrite Bt, Et. exact IH'.
+      * assert (Ex : existsb is_blank (t :: a :: b :: c) = false -> alone_from false r = true).
+        { intros E. specialize (IH' E). cbn in IH'. exact (IH' E). }
+        cbn. intros Eabc. cbn [alone_from].
+        (* t is not a blank either: otherwise the line has three objects one of which is a blank *)
+        destruct (is_blank t) eqn:Bt.
+        -- exfalso.
+           assert (E := long_line_no_blank r (t :: a :: b :: c) H ltac:(cbn; lia)). cbn [existsb] in E. rewrite Bt in E. discriminate.
+        -- rewrite Et. cbn [andb]. apply Ex. cbn [existsb]. rewrite Bt. exact Eabc.
+Qed.
+
+Lemma shape_lines_no_cr_cr l : forall cur,
+  forallb line_ok (split_cr l cur) = true -> (cur = [] -> hd_not_cr l) /\ no_cr_cr l = true.
+Proof.
+  induction l as [|t r IH]; intros cur H; [split; [intros _; exact I|reflexivity]|].
+  cbn [split_cr] in H. destruct (is_cr t) eqn:Et.
+  - cbn [forallb] in H. apply andb_prop in H. destruct H as [Hl Hr].
+    destruct (IH [] Hr) as [Hh Hn]. split.
+    + intros ->. cbn in Hl. discriminate.
+    + apply no_cr_cr_cons; [exact Hn|right; exact (Hh eq_refl)].
+  - destruct (IH (t :: cur) H) as [_ Hn]. split.
+    + intros _. exact Et.
+    + apply no_cr_cr_cons; [exact Hn|left; exact Et].
+Qed.
+
+(* what the reader returns for a text without whitespace at the end of a line is a fixed point of the normalisers:
+   the normalisation step of a second fix run changes nothing *)
+Theorem normalisers_identity_on_reader_shape l :
+  shape l = true -> no_ws_cr l = true -> normalise_toks l = l.
+Proof.
+  intros Hs Hw. unfold shape in Hs. apply andb_prop in Hs. destruct Hs as [Hl _].
+  pose proof (shape_lines_alone l [] Hl I) as Ha. cbn in Ha.
+  destruct (shape_lines_no_cr_cr l [] Hl) as [Hh Hn].
+  apply normalisers_identity_on_clean; try assumption.
+  destruct l as [|t r]; [exact I|]. intros Hc. specialize (Hh eq_refl). cbn in Hh. congruence.
+Qed.
